@@ -104,6 +104,7 @@ CANARIES = {
         ("empty-hex-refused", "stix2/patterns.py", "text", ["^h'(([a-fA-F0-9]{2})*)'$", "^h'(([a-fA-F0-9]{2})+)'$"], "C10.hex-literal-form"),
         ("operand-root-types-aliased", "stix2/patterns.py", "text", ["self.root_types = set(arg.root_types)", "self.root_types = arg.root_types"], "C10.definite-init"),
         ("chain-extended-in-place", "stix2/pattern_visitor.py", "text", ['                return self.instantiate("OrBooleanExpression", children[0].operands + [children[2]])', '                children[0].operands.append(children[2])\n                return children[0]'], "C10.operator-table"),
+        ("hex-validator-dollar", "stix2/patterns.py", "text", ["'^([a-fA-F0-9]{2})+\\Z'", "'^([a-fA-F0-9]{2})+$'"], "C10.hex-literal-form"),
     ],
     "C11": [
         ("overwrite-refusal-removed", "stix2/datastore/filesystem.py", "drop-raise-guard", ["_check_path_and_write", "os.path.isfile"], "C11.check-before-write"),
